@@ -207,6 +207,13 @@ def fam_iter(cfg, tier, rng):
                         for a in "et":
                             out.append(pre + ["drain %s 0 i%d x%d %s drop" % (a, s, e, p)])
                             out.append(pre + ["splice %s 0 i%d x%d %s drop w 1 - 1" % (a, s, e, p)])
+                        # the same sub-range written with every other pair of bounds (excluded start, included end,
+                        # unbounded): seeded change C14-m11 forgot to advance an excluded start
+                        if l <= e - s + 1:
+                            for (sb, eb) in bounds_forms(s, e, n)[1:]:
+                                for a in "et":
+                                    out.append(pre + ["drain %s 0 %s %s %s drop" % (a, sb, eb, p)])
+                                    out.append(pre + ["splice %s 0 %s %s %s drop w 1 - 1" % (a, sb, eb, p)])
     return out
 
 def fam_capacity(cfg, tier, rng):
